@@ -734,6 +734,62 @@ static inline void bg_set_u__insert(bg_set_u *s, const VertexIndex *xp) {
 }
 static inline void bg_set_u__clear(bg_set_u *s) { s->hasP = s->hasQ = 0; s->restCount = 0; }
 
+/* --------------------------------------------- std::unordered_set<VertexIndex> (read-only use) */
+/* the element under the cursor: any of the classes still ahead */
+static inline void bg__uset_arrive(bg_uset_it *it) {
+  if (BG_USET_LEFT(*it) > 0) {
+    VertexIndex x = nondet_vertex();
+    BG_ASSUME(!BG_IS_P(x) || it->remP);
+    BG_ASSUME(!BG_IS_Q(x) || it->remQ);
+    BG_ASSUME(!BG_IS_O(x) || (it->remRest > 0 && (bg_size)x < it->restBound));
+    it->cur = x;
+  }
+}
+static inline bg_uset_it bg_uset_u__begin(const bg_uset_u *s) {
+  bg_uset_it it;
+  it.remP = s->hasP; it.remQ = s->hasQ; it.remRest = s->restCount; it.restBound = s->restBound; it.cur = 0; it.found = 0; it.walking = 1;
+  bg__uset_arrive(&it);
+  return it;
+}
+static inline bg_uset_it bg_uset_u__end(const bg_uset_u *s) {
+  bg_uset_it it;
+  (void)s;
+  it.remP = 0; it.remQ = 0; it.remRest = 0; it.restBound = 0; it.cur = 0; it.found = 0; it.walking = 1;
+  return it;
+}
+/* find(x): end() unless x is a member (membership of an unobserved value is unknown) */
+static inline bg_uset_it bg_uset_u__find(const bg_uset_u *s, const VertexIndex *xp) {
+  bg_uset_it it = bg_uset_u__end(s);
+  VertexIndex x = *xp;
+  it.walking = 0;
+  it.cur = x;
+  it.found = BG_IS_P(x) ? s->hasP : BG_IS_Q(x) ? s->hasQ : (s->restCount > 0 && nondet_bg_bool());
+  return it;
+}
+static inline bg_bool bg__uset_at_end(bg_uset_it a) { return a.walking ? BG_USET_LEFT(a) == 0 : !a.found; }
+/* comparison against end() only (all the library does) */
+static inline bg_bool bg_uset_it__eq(bg_uset_it a, bg_uset_it b) {
+  __CPROVER_assert(bg__uset_at_end(a) || bg__uset_at_end(b), "ABSTRACTION hash iterators are only compared with end()");
+  return bg__uset_at_end(a) == bg__uset_at_end(b);
+}
+static inline bg_bool bg_uset_it__ne(bg_uset_it a, bg_uset_it b) { return !bg_uset_it__eq(a, b); }
+static inline const VertexIndex *bg_uset_it__deref(const bg_uset_it *it) {
+  BG_PRE(!bg__uset_at_end(*it), "dereference end() hash iterator");
+  return &it->cur;
+}
+static inline bg_uset_it *bg_uset_it__preinc(bg_uset_it *it) {
+  BG_PRE(!bg__uset_at_end(*it), "increment end() hash iterator");
+  __CPROVER_assert(it->walking, "ABSTRACTION increment of a find() result");
+  if (BG_IS_P(it->cur)) it->remP = 0;
+  else if (BG_IS_Q(it->cur)) it->remQ = 0;
+  else it->remRest--;
+  bg__uset_arrive(it);
+  return it;
+}
+static inline bg_size bg_uset_u__size(const bg_uset_u *s) {
+  return (s->hasP ? 1 : 0) + (s->hasQ ? 1 : 0) + s->restCount;
+}
+
 /* --------------------------------------------- std::vector<size_t> results */
 static inline void bg_vec_sz__ctor(bg_vec_sz *v) { v->n = 0; v->vP = v->vQ = 0; }
 static inline void bg_vec_sz__ctor_1(bg_vec_sz *v, bg_size n) { v->n = n; v->vP = v->vQ = 0; }
